@@ -113,6 +113,18 @@ def holes(s):
     todo = order + decoys
     if r.random() < 0.5:
         r.shuffle(todo)
+    if r.random() < 0.6:
+        # an early list / allocate (whatever the server remembers about the names in use starts now)
+        w0 = Client(s, main, r.choice(sides))
+        w0.cmd({"type": "list"})
+        if r.random() < 0.4:
+            o = w0.cmd({"type": "allocate"})
+            for e in o["log"]:
+                if e[0] == "F" and e[3] == "allocated" and isinstance(e[4], str):
+                    got0 = bytes.fromhex(e[4]).decode("utf-8")
+                    w0.cmd({"type": "claim", "nameplate": got0})
+                    w0.cmd({"type": "release"})
+        w0.drop()
     # the other app holds some of the same names (must not matter)
     other_names = r.sample(ones + decoys + free, min(len(ones + decoys + free), r.choice([0, 2, 4])))
     for i, n in enumerate(todo):
@@ -132,7 +144,18 @@ def holes(s):
     for _round in range(r.choice([1, 1, 2, 3])):
         numeric = [n for n in held if n.isdigit() and not n.startswith("0") and n.isascii()]
         for n in r.sample(numeric, min(len(numeric), r.choice([0, 1, 1, 2]))):
-            release(s, main, held.pop(n), n)
+            if r.random() < 0.35:
+                # retired by the last close of its mailbox instead of by release (the nameplate goes with the mailbox)
+                cl = claim(s, main, held.pop(n), n, keep=True)
+                mb = s.cinfo.get(cl.c, {}).get("claimed_mailbox")
+                if mb is not None:
+                    cl.cmd({"type": "open", "mailbox": mb})
+                    cl.cmd({"type": "close", "mood": r.choice(["happy", "lonely"])})
+                else:
+                    cl.cmd({"type": "release"})
+                cl.drop()
+            else:
+                release(s, main, held.pop(n), n)
             free.append(n)
             pause(s)
         if r.random() < 0.2 and decoys:
